@@ -6,7 +6,7 @@ PROP = 'C03'
 LEVEL = 'exploration'
 RULE = ('(a) every pattern of (buy|sell) x (smaller|equal|larger than the current net position) for k fills on one '
         'asset (6^k patterns; k=4 quick, k=6 thorough) with random prices (0.01-5000, 0-8 decimals), commissions '
-        '(zero, flat, proportional) and marks, on a real Portfolio, identities checked after every prefix; (b) long '
+        '(zero, flat, proportional), marks and - in one draw per pattern - real-valued (dyadic fractional) quantities, on a real Portfolio, identities checked after every prefix; (b) long '
         'random multi-asset ladders; (c) random broker-level sequences with percentage fees. Oracle per position '
         'epoch (reset when net returns to 0): exact sums of price x quantity and commission per side; total = market '
         'value - net cost - commissions; unrealised = (price - open-side average cost incl. its commission) x net; '
